@@ -617,11 +617,9 @@ def defect_class(keys_in_order):
             if not (P2.endswith(P) and O2.startswith(O)):
                 continue
             u, w = P2[:len(P2) - len(P)], O2[len(O):]
-            if (P[0] == "-" or not u or not _isword(u[-1])) and (not w or not _isword(w[0])):
-                if u == "-" and not w:
-                    return "neg-point-collision"
-                if u == "-":
-                    return "neg-point-and-output-prefix-collision"
+            # (a plain pattern is not matched right after a '-': look-behind of fix 0083ac1, which closed
+            #  the former classes neg-point-collision and neg-point-and-output-prefix-collision)
+            if (P[0] == "-" or not u or (not _isword(u[-1]) and u[-1] != "-")) and (not w or not _isword(w[0])):
                 if not u:
                     return "output-prefix-collision"
                 return "collision-other"
@@ -657,7 +655,10 @@ class PrereqStream(Stream):
                 "ops": [["query"], ["satisfy", [1], False, False], ["query"], ["unset", 1], ["query"], ["set_satisfied"], ["query"]]}
         neg = dict(base, kind="negpoint", atoms=[{"name": "b", "off": -2}, {"name": "b"}], outputs={},
                    tree=["|", ["a", 0], ["a", 1]])
+        # witness of the fixed finding c13:neg-point-collision (fix 0083ac1): regression cases, both orders
         out = [dict(neg, order=[1, 0]), dict(neg, order=[0, 1])]
+        out.append(dict(base, kind="negpoint", point=3, icp=3, start=3, atoms=[{"name": "ab", "off": -6, "label": "y"}, {"name": "ab", "label": "fail"}],
+                        outputs={"ab": {"y": "failed badly"}}, tree=["|", ["a", 1], ["a", 0]], order=[1, 0]))
         pre = dict(base, kind="msgprefix", atoms=[{"name": "a", "label": "x"}, {"name": "a", "label": "y"}],
                    outputs={"a": {"x": "data", "y": "data ready"}}, tree=["|", ["a", 0], ["a", 1]])
         out += [dict(pre, order=[0, 1]), dict(pre, order=[1, 0])]
@@ -946,15 +947,16 @@ META = {
         "generated Python text proved correct on it); (3) c13_pre_initial; (4) c13_cache_transparent - after any sequence of "
         "is_satisfied/__setitem__/satisfy_me/set_satisfied/unset_naturally_satisfied the cached answer equals re-evaluation and the "
         "expression truth; (5) the collision hypothesis is characterised (different tasks never collide; integer points collide only "
-        "by negation; collision-free key sets are order independent). The unrestricted statement is refuted in Coq by the witness of "
-        "finding c13:neg-point-collision. The model is tied to the code by two differential streams compared inside Coq (exact "
+        "if the points are equal (after fix 0083ac1 of finding c13:neg-point-collision, whose witness is kept as a regression case); "
+        "collision-free key sets are order independent). The unrestricted statement is still refuted in Coq by the witness of "
+        "finding c13:output-prefix-collision. The model is tied to the code by two differential streams compared inside Coq (exact "
         "substituted text, initial states, every satisfaction subset, operation sequences with cache/state observation), and a "
         "brute-force oracle evaluates the generated expression tree directly."),
     "level_note": (
         "Model/Prereq.v is a hand model over ASCII text; re.escape is taken as literal matching and eval() is modelled for the "
         "fragment bool(...)|&()- (text outside it is 'unmodelled' and only compared as text). Theorem hypotheses exclude key texts "
         "with | & ( ) / double quote, backslash, points starting with '+', outputs ending in a non-word character and order-dependent collisions: "
-        "these classes are probed on the real code and are open known findings (6 signatures, one of them in graph_parser.py). "
+        "these classes are probed on the real code and are open known findings (5 signatures, one of them in graph_parser.py). "
         "Expression chains are grouped to the right in the model (Python groups left; | and & are associative on int/bool). "
         "Point arithmetic/ordering is not modelled (ordinals supplied by the generator). Trusted: Coq kernel+VM, the harness."),
     "technique": "Coq proof (string combinatorics + mutual induction on expression trees + state invariant) + in-Coq differential correspondence (direct and WorkflowConfig level, hash seed varied) + brute-force oracle",
